@@ -23,6 +23,7 @@ import (
 	"strings"
 	"sync"
 	"testing"
+	"time"
 
 	"github.com/wader/fq/pkg/bitio"
 	"github.com/wader/fq/pkg/decode"
@@ -103,7 +104,7 @@ func TestMain(m *testing.M) {
 		os.Exit(0)
 	}
 	harness.Describe(
-		"jobs = (corpus file <= 16 KiB balanced over formats, format (home / probe), force, kind) where kind is 'tree' (decode.Decode + canonical dump of every value: path, range, actual, sym, description, error), or a whole CLI run 'dv' / 'V' (-V JSON) / 'torepr' with per-format options set or unset (-o); failing decodes included. A rapid-drawn schedule is a sequence of batches, each batch runs 1..16 goroutines with their own job lists (same file many times, different formats mixed), every job with its own Interp sharing the process-wide registry; built with -race. Oracle: every result hash equals the job's reference (first sequential in-process run; for a per-run sample also a lone run in a fresh process), in every order and interleaving; any race detector report fails the run. Further families: the same bytes handed to the decoder as a concatenation of 2..64 parts (a multi reader, short reads at part boundaries) must give the flat decode's hash, with foreign decodes in between; fresh processes whose FIRST decodes run on 8 goroutines at once (cold start) must give the sequential hashes; per format, corrupt variants of a sample file (bits of 1-bit fields and first bits of small fields inverted) decoded in a fresh process after a decode of the intact file with the OTHER force setting must give the hashes of a process that only decoded the variants (an option of an earlier job must not decide a later one). Non-trivial: a batch with >= 4 concurrent jobs of >= 2 formats, or the same job >= 3 times in one schedule; distinct = the schedule.",
+		"jobs = (corpus file <= 16 KiB balanced over formats, format (home / probe), force, kind) where kind is 'tree' (decode.Decode + canonical dump of every value: path, range, actual, sym, description, error), or a whole CLI run 'dv' / 'V' (-V JSON) / 'torepr' with per-format options set or unset (-o); failing decodes included. A rapid-drawn schedule is a sequence of batches, each batch runs 1..16 goroutines with their own job lists (same file many times, different formats mixed), every job with its own Interp sharing the process-wide registry; built with -race. Oracle: every result hash equals the job's reference (first sequential in-process run; for a per-run sample also a lone run in a fresh process), in every order and interleaving; any race detector report fails the run. Further families: the same bytes handed to the decoder as a concatenation of 2..64 parts (a multi reader, short reads at part boundaries) must give the flat decode's hash, with foreign decodes in between; fresh processes whose FIRST decodes run on 8 goroutines at once (cold start) must give the sequential hashes; per format, corrupt variants of a sample file (bits of 1-bit fields and first bits of small fields inverted) decoded in a fresh process after a decode of the intact file with the OTHER force setting must give the hashes of a process that only decoded the variants (an option of an earlier job must not decide a later one); first use: per decoder bucket, files chosen to cover the most field classes (value path without indexes), per class one leaf field set to 0..4/255 (whole-byte fields) or with its first/last bit inverted, every variant in a fresh process of its own that runs variant, intact file, variant: the first result (the lone run) must equal the third. Non-trivial: a batch with >= 4 concurrent jobs of >= 2 formats, or the same job >= 3 times in one schedule; distinct = the schedule.",
 		"the Go scheduler is not owned by the harness: interleavings are explored by repetition and goroutine count only",
 		"a schedule-dependent mismatch may not replay deterministically; the replay command re-runs the schedule 10 times under -race",
 	)
@@ -622,7 +623,7 @@ func TestColdStart(t *testing.T) {
 		}
 		b, _ := json.Marshal(js)
 		cmd := exec.Command(exe, "-test.run=^$")
-		cmd.Env = append(os.Environ(), "VERIF_C18_COLD="+string(b), "VERIF_FRAG=", "GORACE=halt_on_error=0")
+		cmd.Env = append(os.Environ(), "VERIF_C18_COLD="+string(b), "VERIF_FRAG=", "GORACE=halt_on_error=0 atexit_sleep_ms=0")
 		out, cerr := cmd.CombinedOutput()
 		got := map[int]string{}
 		for _, l := range strings.Split(string(out), "\n") {
@@ -661,8 +662,12 @@ func TestColdStart(t *testing.T) {
 // seqRun runs the jobs sequentially in a fresh process.
 func seqRun(exe string, js []job) (map[int]string, bool) {
 	b, _ := json.Marshal(js)
-	cmd := exec.Command(exe, "-test.run=^$")
-	cmd.Env = append(os.Environ(), "VERIF_C18_SEQ="+string(b), "VERIF_FRAG=", "GORACE=halt_on_error=0")
+	// a corrupt variant may send a decoder into a very long decode (C06's
+	// business): the process is given up after 20 s and the case is inconclusive
+	ctx, cancel := context.WithTimeout(context.Background(), 20*time.Second)
+	defer cancel()
+	cmd := exec.CommandContext(ctx, exe, "-test.run=^$")
+	cmd.Env = append(os.Environ(), "VERIF_C18_SEQ="+string(b), "VERIF_FRAG=", "GORACE=halt_on_error=0 atexit_sleep_ms=0")
 	out, err := cmd.CombinedOutput()
 	got := map[int]string{}
 	for _, l := range strings.Split(string(out), "\n") {
@@ -682,8 +687,10 @@ func seqRun(exe string, js []job) (map[int]string, bool) {
 // histories can tell).  Per format: corrupt variants B of a sample file (bits
 // of 1-bit fields and first bits of other small fields inverted, so that
 // validating readers fail) are decoded
-//   P1: after a FORCED decode of the intact file      P2: on their own
-//   P3: forced, after a PLAIN decode of the intact file  P4: forced, on their own
+//
+//	P1: after a FORCED decode of the intact file      P2: on their own
+//	P3: forced, after a PLAIN decode of the intact file  P4: forced, on their own
+//
 // in fresh processes; B's results must agree between P1/P2 and between P3/P4.
 func TestOptionLeak(t *testing.T) {
 	buildPool()
@@ -820,7 +827,7 @@ func TestLoneRuns(t *testing.T) {
 		}
 		b, _ := json.Marshal(j)
 		cmd := exec.Command(exe, "-test.run=^$")
-		cmd.Env = append(os.Environ(), "VERIF_C18_LONE="+string(b), "VERIF_FRAG=")
+		cmd.Env = append(os.Environ(), "VERIF_C18_LONE="+string(b), "VERIF_FRAG=", "GORACE=halt_on_error=0 atexit_sleep_ms=0")
 		out, err := cmd.CombinedOutput()
 		lone := ""
 		for _, l := range strings.Split(string(out), "\n") {
